@@ -80,7 +80,7 @@ static C04: Check = Check {
 static C08: Check = Check {
     property: "C08",
     level: "fault_enumeration",
-    rule: "the space {15 octet-string entry points} x {7 content classes: honest (truncated below / extended by scalar-shaped material above its length), honest with one bit flipped, zeros, 0xFF, identity pattern, PRNG, honest prefix + maxed scalars} x {every length 0..=1024} (fixed-size parameters: 64 content variants at the only admissible length), plus {6 serde_json decoders} x {every truncation of the honest JSON, every value leaf replaced by 11 wrong-type tokens, huge arrays/strings}, plus corrupted integers (every index entry, L, update_index over {0,1,L-1,L,L+1,+-1,2^31,2^32,2^63,MAX-1,MAX}) and malformed index lists, is split by run index: run k enumerates one (entry, class) completely; 129 consecutive runs cover the whole space; a case = one delivered frame; the victim node must return, within 64+4*measure ticks and 1MiB+16KiB*measure requested bytes (measure = ceil(octets/32) + index entries + trusted counts); the wrong-type catalogue of the JSON decoders includes non-hex, UTF-8 and upper-case strings of 64, 96, 192 and 384 characters (every length a codec of the library knows); JSON frames with every enum variant name of the generic types (BBSplus, CL03, _Unreachable, unknown, empty) over null / the honest payload / an empty array; update_signature also with message counts n in {0, 1, L-1 .. L+2, usize::MAX} and with an old signature whose e is -SK; deserialize_and_validate_commit with 8 / exactly M / M +- 1 / M + 2 / no blind generators",
+    rule: "the space {15 octet-string entry points} x {7 content classes: honest (truncated below / extended by scalar-shaped material above its length), honest with one bit flipped, zeros, 0xFF, identity pattern, PRNG, honest prefix + maxed scalars} x {every length 0..=1024} (fixed-size parameters: 64 content variants at the only admissible length), plus {6 serde_json decoders} x {every truncation of the honest JSON, every value leaf replaced by 11 wrong-type tokens, huge arrays/strings}, plus corrupted integers (every index entry, L, update_index over {0,1,L-1,L,L+1,+-1,2^31,2^32,2^63,MAX-1,MAX}) and malformed index lists, is split by run index: run k enumerates one (entry, class) completely; 129 consecutive runs cover the whole space; a case = one delivered frame; the victim node must return, within 64+4*measure ticks and 1MiB+16KiB*measure requested bytes (measure = ceil(octets/32) + index entries + trusted counts); the wrong-type catalogue of the JSON decoders includes non-hex, UTF-8 and upper-case strings of 64, 96, 192 and 384 characters (every length a codec of the library knows); JSON frames with every enum variant name of the generic types (BBSplus, CL03, _Unreachable, unknown, empty) over null / the honest payload / an empty array; update_signature also with message counts n in {0, 1, L-1 .. L+2, usize::MAX} and with an old signature whose e is -SK; deserialize_and_validate_commit with 8 / exactly M / M +- 1 / M + 2 / no blind generators; JSON strings with one multi-octet character at octet offset 1 / 2 / 3 of an otherwise plausible hex text (64-384 characters); every corrupted index list also with L absent",
     quick_runs: 129,
     thorough_runs: 258,
     run: scen_robust::run_c08,
@@ -121,7 +121,7 @@ static C05: Check = Check {
 static C06: Check = Check {
     property: "C06",
     level: "fault_enumeration",
-    rule: "one run = one honest blind session (shape from the same 642-combination table), then: on the BlindRequest hop every bit flip of the commitment-with-proof in slices of 112 bits across runs, truncation/extension by whole scalars, dropped/inserted response, cross-suite replay, commitment/proof splices with a second honest request; on the BlindCredential hop every single-element fault of the committed and signer message lists, message moved across the signer/committed boundary, 32 blind-factor bit flips per run (8 runs cover all 256), blind factor removed, header faults, 40 signature bit flips, pk faults, misroute; on the Presentation hop L corruption, every list / index fault of both disclosed lists, pair moved between lists, header/ph faults, 64 proof bit flips per run, whole-scalar truncation/extension, misroute; verdict by content; every fourth run commits to 128, 64, 32, 129, 33, 65, 127, 63 or 31 messages (walked by the run index); Mallory also sends a commitment point OUTSIDE the subgroup (C + T, T of order 3) with a proof ground until the challenge kills c*T, one frame per residue of the challenge modulo 3; whole-scalar extensions also with blocks that are not canonical scalars (r, r + 4, all ones: after s^, before the challenge, appended); index aliasing across the signer-side and committed lists of a presentation; index lists the draft does not take, on both lists: reordered alone, one index twice with one message; a disclosed committed pair (j, c) claimed through the signer lists as (L + 1 + j, c); a message moved across the boundary of the two message lists with the indexes untouched",
+    rule: "one run = one honest blind session (shape from the same 642-combination table), then: on the BlindRequest hop every bit flip of the commitment-with-proof in slices of 112 bits across runs, truncation/extension by whole scalars, dropped/inserted response, cross-suite replay, commitment/proof splices with a second honest request; on the BlindCredential hop every single-element fault of the committed and signer message lists, message moved across the signer/committed boundary, 32 blind-factor bit flips per run (8 runs cover all 256), blind factor removed, header faults, 40 signature bit flips, pk faults, misroute; on the Presentation hop L corruption, every list / index fault of both disclosed lists, pair moved between lists, header/ph faults, 64 proof bit flips per run, whole-scalar truncation/extension, misroute; verdict by content; every fourth run commits to 128, 64, 32, 129, 33, 65, 127, 63 or 31 messages (walked by the run index); Mallory also sends a commitment point OUTSIDE the subgroup (C + T, T of order 3) with a proof ground until the challenge kills c*T, one frame per residue of the challenge modulo 3; whole-scalar extensions also with blocks that are not canonical scalars (r, r + 4, all ones: after s^, before the challenge, appended); index aliasing across the signer-side and committed lists of a presentation; index lists the draft does not take, on both lists: reordered alone, one index twice with one message; a disclosed committed pair (j, c) claimed through the signer lists as (L + 1 + j, c); a message moved across the boundary of the two message lists with the indexes untouched; a PLAIN signature by the same key over the same header and messages offered at the blind endpoint without committed messages and blind factor",
     quick_runs: 64,
     thorough_runs: 642,
     run: scen_blind::run_c06,
@@ -129,7 +129,7 @@ static C06: Check = Check {
     real: REAL,
     simulated: SIMULATED,
     exhaustive_after: None,
-    probes: &["list_length_at_a_power_of_two_edge", "off_subgroup_commitment_with_ground_challenge", "index_list_reordered_messages_as_given", "committed_message_claimed_as_signer_message"],
+    probes: &["list_length_at_a_power_of_two_edge", "off_subgroup_commitment_with_ground_challenge", "index_list_reordered_messages_as_given", "committed_message_claimed_as_signer_message", "plain_signature_at_the_blind_endpoint"],
 };
 
 static C07: Check = Check {
